@@ -5,7 +5,8 @@
 // (SetNX-capable, SetNX-less, or real hybrid.Storage nodes over one shared-cache double) and on
 // real node.NodeIDAllocator nodes over real hybrid.Storage, with crypto/rand.Reader scripted so
 // that the candidate sequence is the one TLC chose. Generate/Release call/return events and the
-// store's live markers are judged by spec/IdGenTrace.tla.
+// store's live markers are judged by spec/IdGenTrace.tla. uniq.go: the retry layer of the IDManager
+// (GenerateUniqueXxxID with a caller-supplied check function) up to and beyond its attempt budget.
 //
 // Time: the allocator's 30 s renew ticker and 90 s claim TTL are compile-time constants with no
 // constructor parameter and no exported renew function. The lease histories (claim - renewals with
@@ -33,6 +34,7 @@ import (
 	"strconv"
 	"strings"
 	"sync"
+	"sync/atomic"
 	"time"
 
 	corelog "tunnox-core/internal/core/log"
@@ -51,32 +53,38 @@ type step struct {
 type modelBeh struct {
 	Lay string `json:"lay"`
 	Tk  []int  `json:"tk"`
+	Rp  []int  `json:"rp"` // uniq: candidates that exist in the caller's repository
 	Fk  string `json:"fk"` // kind of store operation of which one fails in this behaviour ("none")
 	Nx  bool   `json:"nx"` // gen: the store offers SetNX
 	St  []step `json:"st"`
 }
 
 type behaviour struct {
-	Kind   string `json:"kind"`  // gen | node | genfree | nodefree
-	Store  string `json:"store"` // gen: cas | nocas | hybrid      node: split | same | local (wiring)
-	API    string `json:"api,omitempty"`
-	IDKind string `json:"idkind,omitempty"`
-	Lay    string `json:"lay,omitempty"`
-	Tk     []int  `json:"tk"`
-	St     []step `json:"st,omitempty"`
-	NSlots int    `json:"nslots,omitempty"`
-	Timed  bool   `json:"timed,omitempty"`
-	TTL0   bool   `json:"ttl0,omitempty"`  // generator built with marker TTL 0 ("until Release"); hybrid with a short default cache TTL
-	Clock  string `json:"clock,omitempty"` // node, timed: "fake" = driven under the runtime's fake clock (bubble.go); "" = real waiting
-	Tail   int    `json:"tail,omitempty"`  // fake clock: fault-free renew periods between the two closing allocations by fresh nodes
-	MaxCF  int    `json:"maxcf,omitempty"` // fake clock: bound on failed renewals in a row per claim key (enforced by the fault injector)
-	Src    string `json:"src,omitempty"`   // generation job of a timed behaviour (they are selected in ExtraBeh)
-	Cat    string `json:"cat,omitempty"`
-	Seed   int    `json:"seed,omitempty"`
-	Procs  int    `json:"procs,omitempty"`
-	Ops    int    `json:"ops,omitempty"`
-	Univ   int    `json:"univ,omitempty"`
+	Kind    string `json:"kind"`  // gen | node | genfree | nodefree
+	Store   string `json:"store"` // gen: cas | nocas | hybrid      node: split | same | local (wiring)
+	API     string `json:"api,omitempty"`
+	IDKind  string `json:"idkind,omitempty"`
+	Lay     string `json:"lay,omitempty"`
+	Tk      []int  `json:"tk"`
+	Rp      []int  `json:"rp,omitempty"`      // uniq: candidates that exist in the caller's repository
+	MaxU    int    `json:"maxu,omitempty"`    // uniq: attempt budget of the model (its last attempt is the code's 100th)
+	Tail101 string `json:"tail101,omitempty"` // uniq: what a 101st draw of the random source gives: "fresh" | "repeat"
+	St      []step `json:"st,omitempty"`
+	NSlots  int    `json:"nslots,omitempty"`
+	Timed   bool   `json:"timed,omitempty"`
+	TTL0    bool   `json:"ttl0,omitempty"`  // generator built with marker TTL 0 ("until Release"); hybrid with a short default cache TTL
+	Clock   string `json:"clock,omitempty"` // node, timed: "fake" = driven under the runtime's fake clock (bubble.go); "" = real waiting
+	Tail    int    `json:"tail,omitempty"`  // fake clock: fault-free renew periods between the two closing allocations by fresh nodes
+	MaxCF   int    `json:"maxcf,omitempty"` // fake clock: bound on failed renewals in a row per claim key (enforced by the fault injector)
+	Src     string `json:"src,omitempty"`   // generation job of a timed behaviour (they are selected in ExtraBeh)
+	Cat     string `json:"cat,omitempty"`
+	Seed    int    `json:"seed,omitempty"`
+	Procs   int    `json:"procs,omitempty"`
+	Ops     int    `json:"ops,omitempty"`
+	Univ    int    `json:"univ,omitempty"`
 }
+
+var uniqSeen, uniqLast atomic.Int64
 
 var scopeAll = os.Getenv("VERIF_C15_SCOPE") == "all"
 
@@ -184,6 +192,8 @@ func drive(env *fw.Env, fb fw.Behaviour) *fw.Trace {
 		return driveGen(env, &b)
 	case "uuid":
 		return driveUUID(env, &b)
+	case "uniq":
+		return driveUniq(env, &b)
 	case "genfree":
 		defer enterFree()()
 		return driveGenFree(env, &b)
@@ -207,6 +217,7 @@ type mcfg struct {
 	maxRF                               int    // transient heartbeat failures per node
 	maxCF                               int    // ... in a row (0 = the default 1: never two in a row)
 	realloc                             bool   // node: an allocator may allocate again after its Release
+	maxU                                int    // uniq: attempts of the manager's retry loop
 	lapse                               bool   // gen: the Lapse action
 	bothNX                              bool   // gen: one run over the SetNX store and the SetNX-less store
 	hasNX                               bool
@@ -236,8 +247,10 @@ func (c mcfg) job(name string, emit bool, invs string, workers int) fw.TLCJob {
 		"MAXATT": fmt.Sprint(max(c.maxAtt, 1)), "MAXCALLS": fmt.Sprint(max(c.maxCalls, 1)), "LAYOUTS": c.layouts,
 		"NSLOTS": fmt.Sprint(max(c.nslots, 1)), "RENEW": c.renew, "WIRING": c.wiring,
 		"MAXTICKS": fmt.Sprint(c.maxTicks), "EMIT": b(emit), "INVS": invs, "FAULTS": c.faults,
-		"MAXRF": fmt.Sprint(c.maxRF), "MAXCF": fmt.Sprint(max(c.maxCF, 1)), "REALLOC": b(c.realloc), "STOPCHAN": map[bool]string{false: "once", true: "fresh"}[c.realloc], "LAPSE": b(c.lapse)}}
+		"MAXRF": fmt.Sprint(c.maxRF), "MAXCF": fmt.Sprint(max(c.maxCF, 1)), "REALLOC": b(c.realloc), "MAXU": fmt.Sprint(max(c.maxU, 1)), "STOPCHAN": map[bool]string{false: "once", true: "fresh"}[c.realloc], "LAPSE": b(c.lapse)}}
 }
+
+const uniqMaxU = 2 // attempt budget of the generated uniq behaviours (the driver stretches the last attempt to the code's 100th)
 
 const (
 	p2  = `"p1", "p2"`
@@ -255,6 +268,7 @@ const (
 	fA  = `"SetNX", "Delete", "Exists", "Set"`
 	fL  = `"SetNX", "Delete"` // lease histories: one failing SetNXRuntime (allocation) / Delete (Release) at any time
 	inL = "NoForeign NodeOnlyDeviation"
+	inU = "UniqOK"
 )
 
 // Quick tier: the exhaustive runs ARE the generation runs (Emit = TRUE, invariants on) to save JVM
@@ -267,6 +281,8 @@ func modelJobs(env *fw.Env) []fw.TLCJob {
 		mcfg{mode: "gen", procs: p3, layouts: l3, hasNX: true, ncands: 3, maxAtt: 2, maxCalls: 2}.job("mc:gen:setnx:3x3x2", false, inG, 16),
 		mcfg{mode: "gen", procs: p3, layouts: l3, hasNX: true, ncands: 2, maxAtt: 2, maxCalls: 2, faults: fG}.job("mc:gen:setnx:3x2x2:faults", false, inG, 16),
 		mcfg{mode: "gen", procs: p3, layouts: l3, hasNX: false, ncands: 2, maxAtt: 2, maxCalls: 2}.job("mc:gen:fallback:3x2x2", false, inF, 16),
+		// the manager's retry layer: three candidates, budget of three attempts, a failing check function
+		mcfg{mode: "uniq", procs: p2, layouts: l2, hasNX: true, ncands: 3, maxAtt: 2, maxCalls: 1, maxU: 3, faults: `"Check"`}.job("mc:uniq:2x3x1:u3", false, inU, 8),
 		// the repaired allocator (renewal written where the claim lives), memory+redis wiring
 		mcfg{mode: "node", procs: n3, nslots: 2, renew: "claim", wiring: "split", maxTicks: 5}.job("mc:node:timed:renew=claim:split", false, inN, 8),
 		// redis mode (local cache IS the shared store): correct even with the old renewal
@@ -302,6 +318,13 @@ func genJobs(env *fw.Env) []fw.TLCJob {
 	//   lease:long one holder (quick) / two nodes (thorough) over a long horizon, <= 6 (5) failed renewals
 	// (with VERIF_C15_REALLOC=1 the model is the one of the repaired allocator - a fresh stop channel per
 	// allocation - so that what the code as it is does instead shows up as a departure and, judged, as the duplicate)
+	// the retry layer of the IDManager (GenerateUniqueXxxID with the caller's check function): every pattern of
+	// pre-existing markers and of ids that exist in the caller's repository, two callers on one / two managers
+	if env.Tier == "quick" {
+		jobs = append(jobs, mcfg{mode: "uniq", procs: p2, layouts: l2, hasNX: true, ncands: 2, maxAtt: 2, maxCalls: 1, maxU: uniqMaxU}.job("gen:uniq:2x2x1", true, inU, 1))
+	} else {
+		jobs = append(jobs, mcfg{mode: "uniq", procs: p2, layouts: l2, hasNX: true, ncands: 2, maxAtt: 2, maxCalls: 1, maxU: uniqMaxU, faults: `"Check"`}.job("gen:uniq:2x2x1:chk", true, inU, 4))
+	}
 	inLease, calls, horizon, lf := inN, 1, 6, fL
 	if reallocOn {
 		calls, horizon, lf = 2, 5, "" // (two allocations per allocator: a smaller horizon keeps the model the size of the default one)
@@ -484,6 +507,48 @@ func expand(env *fw.Env, src string, raw json.RawMessage) []json.RawMessage {
 			stash = append(stash, behaviour{Kind: "node", Store: "split", Tk: m.Tk, St: m.St, NSlots: ns, Timed: true, Src: src, Cat: cat})
 			stashMu.Unlock()
 		}
+	case strings.HasPrefix(src, "gen:uniq"):
+		// the code answers a FAILING check function with "assume the id is free" (IdGen_show_checkerr.cfg): behaviours
+		// in which that hands out an id of the repository are not driven (deliberate in the code, no caller in tunnox-core)
+		cand, inRepo := map[string]int{}, map[int]bool{}
+		for _, c := range m.Rp {
+			inRepo[c] = true
+		}
+		last := false // some call reaches the model's last attempt: the part of the budget that matters
+		att := map[string]int{}
+		for _, s := range m.St {
+			switch {
+			case s.A == "UCall":
+				cand[s.P], att[s.P] = s.C, 1
+			case (s.A == "UNX" || s.A == "URel") && s.R == "retry":
+				cand[s.P] = s.C
+				if s.A == "URel" {
+					att[s.P]++
+					last = last || att[s.P] == uniqMaxU
+				}
+			case s.A == "UChk" && s.R == "ferr" && inRepo[cand[s.P]]:
+				return nil
+			}
+		}
+		uniqSeen.Add(1)
+		if last {
+			uniqLast.Add(1)
+		}
+		// quick: a fixed selection (by content hash, not by seed): every tenth behaviour that reaches the last attempt,
+		// every twelfth of the others, one id kind each; thorough: every fourth of the former for ALL id kinds of the manager
+		apis := []string{uniqAPIs[h/16%len(uniqAPIs)]}
+		switch {
+		case env.Tier == "quick" && (last && h%10 != 0 || !last && h%12 != 0):
+			return nil
+		case env.Tier != "quick" && last && h%4 != 0:
+			return nil
+		case env.Tier != "quick" && last:
+			apis = uniqAPIs
+		}
+		for i, a := range apis {
+			out = append(out, fw.MustJSON(behaviour{Kind: "uniq", Store: []string{"cas", "hybrid"}[(h/8+i)%2], API: a, Lay: m.Lay, Tk: m.Tk, Rp: m.Rp, St: m.St,
+				MaxU: uniqMaxU, Tail101: []string{"fresh", "repeat"}[(h/64+i)%2]}))
+		}
 	case strings.HasPrefix(src, "gen:node:lease"):
 		// lease histories, fake clock. NSlots of the model is the job name's suffix. Each goes to one of the
 		// three wirings. Quick tier: thinned out by a hash (not by the seed: the same selection in every run) -
@@ -615,6 +680,11 @@ func extraBeh(env *fw.Env) []json.RawMessage {
 func maxBehSrc(env *fw.Env, src string) int {
 	q := env.Tier == "quick"
 	switch {
+	case strings.HasPrefix(src, "gen:uniq"):
+		if q {
+			return 0 // (thinned out in expand)
+		}
+		return 5000
 	case strings.HasPrefix(src, "gen:node:lease"):
 		if q {
 			return 0 // (thinned out in expand)
@@ -671,6 +741,7 @@ func postDrive(env *fw.Env, traces []*fw.Trace) error {
 		"heartbeat ticker and the 90 s claim TTL run in virtual time): %d (split %d, same %d, local %d), %d of them left their script; "+
 		"each is closed by an allocation of a fresh node, %d fault-free periods and another allocation; the same kind of history with real waiting: thorough tier\n",
 		lease, leaseByW["split"], leaseByW["same"], leaseByW["local"], leaseDiv, 4)
+	fmt.Printf("[c15] retry layer of the IDManager: %d behaviours generated (after removing those with a failing check on a repository id), %d of them reach the last attempt of the budget (driven for every id kind, stretched to the code's 100 attempts)\n", uniqSeen.Load(), uniqLast.Load())
 	followed, diverged := 0, 0
 	oosTraces, oosDup := 0, 0
 	divBySrc := map[string]int{}
@@ -740,7 +811,7 @@ func cloneTrace(t *fw.Trace, id int) *fw.Trace {
 	return c
 }
 
-// selfTest corrupts accepted traces in six ways; the judge must reject every one.
+// selfTest corrupts accepted traces in eight ways; the judge must reject every one.
 func selfTest(env *fw.Env, acc []*fw.Trace) []*fw.Trace {
 	var out []*fw.Trace
 	next := 1 << 20
@@ -750,7 +821,7 @@ func selfTest(env *fw.Env, acc []*fw.Trace) []*fw.Trace {
 		out = append(out, c)
 	}
 	for _, t := range acc {
-		if len(out) >= 72 {
+		if len(out) >= 96 {
 			break
 		}
 		if len(t.Events) == 0 || t.Events[0]["scope"] != true {
@@ -803,6 +874,13 @@ func selfTest(env *fw.Env, acc []*fw.Trace) []*fw.Trace {
 					delete(crashAt, id)
 				}
 				holder[id] = evStr(e, "p")
+				// (g) retry layer of the manager: a success returns an id that exists in the caller's repository
+				if rp, _ := t.Events[0]["repo"].([]any); len(rp) > 0 && count["repo"] < 12 {
+					next++
+					c := cloneTrace(t, next)
+					c.Events[i]["id"] = rp[0]
+					add("repo", c)
+				}
 				// (b) a success returns a pre-existing id
 				if len(taken) > 0 && count["taken"] < 12 {
 					next++
@@ -817,6 +895,13 @@ func selfTest(env *fw.Env, acc []*fw.Trace) []*fw.Trace {
 				c := cloneTrace(t, next)
 				c.Events[i]["err"] = "other"
 				add("unclean", c)
+			case e["ev"] == "Snap" && t.Events[0]["clean"] == true && count["markerleft"] < 12:
+				// (h) a candidate that was not handed out is still marked
+				next++
+				c := cloneTrace(t, next)
+				ms, _ := e["markers"].([]any)
+				c.Events[i]["markers"] = append(append([]any{}, ms...), "left-behind")
+				add("markerleft", c)
 			case e["ev"] == "Snap" && len(outst) > 0 && count["unmarked"] < 12:
 				// (e) an outstanding id has lost its marker
 				var victim string
@@ -882,7 +967,9 @@ func main() {
 			return rets >= 2 && !strings.HasPrefix(t.Note, "diverged")
 		},
 		Rule: "one behaviour per (state, action) transition of IdGen.tla: 2-3 callers over 1-3 generator instances x 2-3 candidates x 2 calls " +
-			"(SetNX store, SetNX-less store, hybrid nodes over one shared cache; every pattern of pre-existing ids), and 3 nodes x 2 slots for the " +
+			"(SetNX store, SetNX-less store, hybrid nodes over one shared cache; every pattern of pre-existing ids), the IDManager's retry layer " +
+			"(GenerateUniqueClientID / GenerateUniqueID / GenerateUniquePortMappingID / GenerateUniqueNodeID with the caller's check function: 2 callers x 2 candidates x " +
+			"every pattern of markers and repository ids; the model's last attempt stretched to the code's 100th: exactly 99 / 100 / 101+ colliding candidates), and 3 nodes x 2 slots for the " +
 			"node-id allocator; the lease of a node id over time (claim, heartbeat renewals with transient store faults, release / crash, expiry, " +
 			"next holder; 2 nodes x 6 periods and 1 holder x 14 periods, thorough: 2 slots / 10 periods) under the runtime's fake clock, each history closed by " +
 			"allocations of fresh nodes (thorough also: timed histories with real waiting for the 30 s heartbeat / 90 s TTL), forced on the real generators / IDManagers / " +
@@ -891,6 +978,7 @@ func main() {
 			"nodes are objects of one process sharing one store double; the doubles are correct maps (SetNX atomic)",
 			"a live node's heartbeat goroutine is scheduled on time (the lease histories run under the Go runtime's fake clock - testing/synctest - so this holds by construction); marker TTL (30 days) expiry is outside the behaviours",
 			"store faults are transient: a holder's renewal never fails twice in a row (claim TTL = 3 renew periods; with 2 failures in a row the deciding renewal falls on the expiry instant - IdGen_show_outage.cfg - the limit of any lease); the fault injector enforces this on the real sequence of attempts",
+			"the caller's check function of GenerateUniqueXxxID answers without error for ids of its repository (on a check error the code deliberately assumes the id free: IdGen_show_checkerr.cfg; no caller in tunnox-core)",
 			"an allocator object is not used again after its Release (no call site in tunnox-core does; VERIF_C15_REALLOC=1 drives it: IdGen_show_realloc.cfg)",
 			"a store without SetNX shared by several generator instances is outside the property (no storage.Storage of tunnox-core lacks SetNX); single-instance use of such a store is inside",
 			"allocator histories with REAL waiting only in the thorough tier (30 s ticker and 90 s TTL are compile-time constants); both tiers drive the lease histories in virtual time",
